@@ -26,7 +26,8 @@ type replayCase struct {
 	Params  map[string]int    `json:"params"`
 }
 
-const shimSrc = `
+const sharedShimSrc = `package verifshim
+
 import (
 	"fmt"
 	"math"
@@ -34,73 +35,128 @@ import (
 	"strings"
 )
 
-type verifCase struct {
+type Case struct {
 	Harness string
 	Model   map[string]uint64
 	Choices map[string]int64
 	Params  map[string]int
 }
 
-var vCase *verifCase
-var vOcc map[string]int
-var vReachedDone bool
-var vObserved []string
+var Cur *Case
+var Occ map[string]int
+var ReachedDone bool
+var Observed []string
 
-type verifAssertFail struct{ id string }
-type verifAssumeFail struct{}
+type AssertFail struct{ ID string }
+type AssumeFail struct{}
 
-func vName(name string) string {
-	k := vOcc[name]
-	vOcc[name] = k + 1
-	return fmt.Sprintf("%s#%d", name, k)
+func name(n string) string {
+	k := Occ[n]
+	Occ[n] = k + 1
+	return fmt.Sprintf("%s#%d", n, k)
 }
-func vBits(name string) uint64 {
-	n := vName(name)
-	if v, ok := vCase.Model[n]; ok {
+func Bits(n0 string) uint64 {
+	n := name(n0)
+	if v, ok := Cur.Model[n]; ok {
 		return v
 	}
-	if v, ok := vCase.Choices[n]; ok {
+	if v, ok := Cur.Choices[n]; ok {
 		return uint64(v)
 	}
 	return 0
 }
-func vRune(name string) rune     { return rune(int32(uint32(vBits(name)))) }
-func vInt(name string) int       { return int(int64(vBits(name))) }
-func vInt64(name string) int64   { return int64(vBits(name)) }
-func vInt32(name string) int32   { return int32(uint32(vBits(name))) }
-func vUint32(name string) uint32 { return uint32(vBits(name)) }
-func vUint(name string) uint     { return uint(vBits(name)) }
-func vBool(name string) bool     { return vBits(name)&1 != 0 }
-func vF64(name string) float64   { return math.Float64frombits(vBits(name)) }
-func vF32(name string) float32   { return math.Float32frombits(uint32(vBits(name))) }
-func vChoice(name string, n int) int {
-	v := int(int64(vBits(name)))
+func Choice(n0 string, n int) int {
+	v := int(int64(Bits(n0)))
 	if v < 0 || v >= n {
-		panic(verifAssumeFail{})
+		panic(AssumeFail{})
 	}
 	return v
 }
-func vParam(name string) int {
-	v, ok := vCase.Params[name]
+func Param(n string) int {
+	v, ok := Cur.Params[n]
 	if !ok {
-		panic("harness parameter not configured: " + name)
+		panic("harness parameter not configured: " + n)
 	}
 	return v
 }
-func vAssume(c bool) {
+func Assume(c bool) {
 	if !c {
-		panic(verifAssumeFail{})
+		panic(AssumeFail{})
 	}
 }
-func vAssert(c bool, id string) {
+func Assert(c bool, id string) {
 	if !c {
-		panic(verifAssertFail{id})
+		panic(AssertFail{id})
 	}
 }
-func vDone()                 { vReachedDone = true }
-func vAnd(a, b bool) bool    { return a && b }
-func vOr(a, b bool) bool     { return a || b }
-func vImp(a, b bool) bool    { return !a || b }
+func F64(n string) float64 { return math.Float64frombits(Bits(n)) }
+func F32(n string) float32 { return math.Float32frombits(uint32(Bits(n))) }
+func SameBits64(a, b float64) bool {
+	return math.Float64bits(a) == math.Float64bits(b) || (a != a && b != b)
+}
+func SameBits32(a, b float32) bool {
+	return math.Float32bits(a) == math.Float32bits(b) || (a != a && b != b)
+}
+func Observe(label string, v any) {
+	Observed = append(Observed, fmt.Sprintf("%s=%s", label, Describe(v)))
+}
+func Describe(v any) string {
+	switch x := v.(type) {
+	case nil:
+		return "nil"
+	case string:
+		return fmt.Sprintf("%q", x)
+	case bool:
+		return fmt.Sprintf("%v", x)
+	case float32:
+		return fmt.Sprintf("%v", float64(x))
+	}
+	return fmt.Sprintf("%v", v)
+}
+
+// PanicSite finds the function in which the current panic was raised.
+func PanicSite() string {
+	pcs := make([]uintptr, 64)
+	n := runtime.Callers(2, pcs)
+	frames := runtime.CallersFrames(pcs[:n])
+	seenPanic := false
+	for {
+		f, more := frames.Next()
+		if strings.HasPrefix(f.Function, "runtime.") || f.Function == "" {
+			if f.Function == "runtime.gopanic" || strings.HasPrefix(f.Function, "runtime.panic") || strings.HasPrefix(f.Function, "runtime.goPanic") || f.Function == "runtime.sigpanic" {
+				seenPanic = true
+			}
+		} else if seenPanic {
+			return f.Function
+		}
+		if !more {
+			break
+		}
+	}
+	return "?"
+}
+` + "\n"
+
+const shimSrc = `
+import verifshim "` + repoModule + `/zzverif/shim"
+
+func vRune(name string) rune     { return rune(int32(uint32(verifshim.Bits(name)))) }
+func vInt(name string) int       { return int(int64(verifshim.Bits(name))) }
+func vInt64(name string) int64   { return int64(verifshim.Bits(name)) }
+func vInt32(name string) int32   { return int32(uint32(verifshim.Bits(name))) }
+func vUint32(name string) uint32 { return uint32(verifshim.Bits(name)) }
+func vUint(name string) uint     { return uint(verifshim.Bits(name)) }
+func vBool(name string) bool     { return verifshim.Bits(name)&1 != 0 }
+func vF64(name string) float64   { return verifshim.F64(name) }
+func vF32(name string) float32   { return verifshim.F32(name) }
+func vChoice(name string, n int) int { return verifshim.Choice(name, n) }
+func vParam(name string) int     { return verifshim.Param(name) }
+func vAssume(c bool)             { verifshim.Assume(c) }
+func vAssert(c bool, id string)  { verifshim.Assert(c, id) }
+func vDone()                     { verifshim.ReachedDone = true }
+func vAnd(a, b bool) bool        { return a && b }
+func vOr(a, b bool) bool         { return a || b }
+func vImp(a, b bool) bool        { return !a || b }
 func vIteInt(c bool, a, b int) int {
 	if c {
 		return a
@@ -131,59 +187,19 @@ func vIteF64(c bool, a, b float64) float64 {
 	}
 	return b
 }
-func vConcrete(x int) int      { return x }
-func vIsNaN64(x float64) bool  { return x != x }
-func vIsNaN32(x float32) bool  { return x != x }
-func vSameBits64(a, b float64) bool {
-	return math.Float64bits(a) == math.Float64bits(b) || (a != a && b != b)
-}
-func vSameBits32(a, b float32) bool {
-	return math.Float32bits(a) == math.Float32bits(b) || (a != a && b != b)
-}
-func vWriteSetBegin()        {}
-func vWriteSetEnd(id string) {}
-func vObserve(label string, v any) {
-	vObserved = append(vObserved, fmt.Sprintf("%s=%s", label, vDescribe(v)))
-}
-func vDescribe(v any) string {
-	switch x := v.(type) {
-	case nil:
-		return "nil"
-	case string:
-		return fmt.Sprintf("%q", x)
-	case bool:
-		return fmt.Sprintf("%v", x)
-	case float32:
-		return fmt.Sprintf("%v", float64(x))
-	}
-	return fmt.Sprintf("%v", v)
-}
-
-// verifPanicSite finds the function in which the current panic was raised.
-func verifPanicSite() string {
-	pcs := make([]uintptr, 64)
-	n := runtime.Callers(2, pcs)
-	frames := runtime.CallersFrames(pcs[:n])
-	seenPanic := false
-	for {
-		f, more := frames.Next()
-		if strings.HasPrefix(f.Function, "runtime.") || f.Function == "" {
-			if f.Function == "runtime.gopanic" || strings.HasPrefix(f.Function, "runtime.panic") || strings.HasPrefix(f.Function, "runtime.goPanic") || f.Function == "runtime.sigpanic" {
-				seenPanic = true
-			}
-		} else if seenPanic {
-			return f.Function
-		}
-		if !more {
-			break
-		}
-	}
-	return "?"
-}
+func vConcrete(x int) int           { return x }
+func vIsNaN64(x float64) bool       { return x != x }
+func vIsNaN32(x float32) bool       { return x != x }
+func vSameBits64(a, b float64) bool { return verifshim.SameBits64(a, b) }
+func vSameBits32(a, b float32) bool { return verifshim.SameBits32(a, b) }
+func vWriteSetBegin()               {}
+func vWriteSetEnd(id string)        {}
+func vObserve(label string, v any)  { verifshim.Observe(label, v) }
 `
 
 const driverSrc = `
 import (
+	verifshim "` + repoModule + `/zzverif/shim"
 	"encoding/json"
 	"fmt"
 	"os"
@@ -192,18 +208,18 @@ import (
 	"time"
 )
 
-func verifRunCase(c *verifCase) (outcome string) {
+func verifRunCase(c *verifshim.Case) (outcome string) {
 	done := make(chan string, 1)
 	go func() {
 		defer func() {
 			if r := recover(); r != nil {
 				switch r := r.(type) {
-				case verifAssertFail:
-					done <- "assert:" + r.id
-				case verifAssumeFail:
+				case verifshim.AssertFail:
+					done <- "assert:" + r.ID
+				case verifshim.AssumeFail:
 					done <- "assume-failed"
 				default:
-					site := verifPanicSite()
+					site := verifshim.PanicSite()
 					msg := fmt.Sprint(r)
 					if e, ok := r.(error); ok {
 						msg = e.Error()
@@ -212,17 +228,17 @@ func verifRunCase(c *verifCase) (outcome string) {
 				}
 			}
 		}()
-		vCase = c
-		vOcc = map[string]int{}
-		vReachedDone = false
-		vObserved = nil
+		verifshim.Cur = c
+		verifshim.Occ = map[string]int{}
+		verifshim.ReachedDone = false
+		verifshim.Observed = nil
 		f, ok := verifHarnesses[c.Harness]
 		if !ok {
 			done <- "no-such-harness"
 			return
 		}
 		f()
-		if vReachedDone {
+		if verifshim.ReachedDone {
 			done <- "done"
 		} else {
 			done <- "returned-without-done"
@@ -241,7 +257,7 @@ func TestVerifReplay(t *testing.T) {
 	if err != nil {
 		t.Fatal(err)
 	}
-	var cases []*verifCase
+	var cases []*verifshim.Case
 	if err := json.Unmarshal(b, &cases); err != nil {
 		t.Fatal(err)
 	}
@@ -250,8 +266,8 @@ func TestVerifReplay(t *testing.T) {
 	for i := start; i < len(cases); i++ {
 		o := verifRunCase(cases[i])
 		obs := ""
-		if len(vObserved) > 0 && o != "timeout" {
-			obs = " ## " + strings.Join(vObserved, " | ")
+		if len(verifshim.Observed) > 0 && o != "timeout" {
+			obs = " ## " + strings.Join(verifshim.Observed, " | ")
 		}
 		fmt.Printf("REPLAY-RESULT %d %s%s\n", i, o, obs)
 		if o == "timeout" {
@@ -290,11 +306,22 @@ func nativeReplay(rel string, cases []replayCase, race bool) ([]string, error) {
 		overlay[filepath.Join(repoDir, rel, name)] = f
 		return nil
 	}
-	for _, f := range hp.files {
-		overlay[filepath.Join(repoDir, rel, "zz_verif_"+filepath.Base(f))] = f
+	{
+		sf := filepath.Join(sc.dir, "verifshim.go")
+		if err := os.WriteFile(sf, []byte(sharedShimSrc), 0o644); err != nil {
+			return nil, err
+		}
+		overlay[filepath.Join(repoDir, "zzverif", "shim", "shim.go")] = sf
 	}
-	if err := put("zz_verif_shim.go", "package "+hp.pkgName+"\n"+shimSrc); err != nil {
-		return nil, err
+	for orel, ohp := range hps {
+		for _, f := range ohp.files {
+			overlay[filepath.Join(repoDir, orel, "zz_verif_"+filepath.Base(f))] = f
+		}
+		sf := filepath.Join(sc.dir, strings.ReplaceAll(orel, "/", "_")+"_zz_verif_shim.go")
+		if err := os.WriteFile(sf, []byte("package "+ohp.pkgName+"\n"+shimSrc), 0o644); err != nil {
+			return nil, err
+		}
+		overlay[filepath.Join(repoDir, orel, "zz_verif_shim.go")] = sf
 	}
 	var reg strings.Builder
 	reg.WriteString("package " + hp.pkgName + "\n" + driverSrc + "\nvar verifHarnesses = map[string]func(){\n")
